@@ -25,7 +25,42 @@ fn streams() -> Vec<Stream> {
     vec![
         Stream { name: "send-all", count: (6_000, 120_000), exhaustive: false, run: send_all },
         Stream { name: "send-all-large", count: (160, 1_500), exhaustive: false, run: send_all_large },
+        Stream { name: "send-all-squeezed", count: (3_000, 60_000), exhaustive: false, run: squeezed },
     ]
+}
+
+thread_local! {
+    /// limits forced on the next case: (max_tx_size, max_value_size)
+    static OVERRIDE: std::cell::Cell<(Option<u64>, Option<u64>)> = std::cell::Cell::new((None, None));
+    /// what the last case measured: (largest really witnessed transaction, largest output value), in bytes
+    static MEASURED: std::cell::Cell<(u64, u64)> = std::cell::Cell::new((0, 0));
+}
+
+/// the size limits are only interesting at the limit: a UTxO set is swept once to learn the largest
+/// witnessed transaction S and the largest output value V it produces, then again (same random stream) with
+/// max_tx_size = S - k or max_value_size = V - k: the batcher must refuse or split differently; a size
+/// model that is a byte short somewhere lets S (or V) through
+fn squeezed(ctx: &mut Ctx, r: &mut Rng, i: u64) {
+    let mut r1 = r.clone();
+    MEASURED.with(|m| m.set((0, 0)));
+    OVERRIDE.with(|o| o.set((None, None)));
+    send_all(ctx, &mut r1, i);
+    let (s, v) = MEASURED.with(|m| m.get());
+    let top = if r1.bool() { 3 } else { 40 };
+    let k = 1 + r1.below(top);
+    let forced = if v > k + 40 && r1.bool() {
+        ctx.bucket("squeeze.max-value-size");
+        (None, Some(v - k))
+    } else if s > k + 300 {
+        ctx.bucket("squeeze.max-tx-size");
+        (Some(s - k), None)
+    } else {
+        ctx.bucket("squeeze.nothing-to-squeeze");
+        return;
+    };
+    OVERRIDE.with(|o| o.set(forced));
+    send_all(ctx, r, i);
+    OVERRIDE.with(|o| o.set((None, None)));
 }
 
 pub fn send_all(ctx: &mut Ctx, r: &mut Rng, _i: u64) {
@@ -58,6 +93,13 @@ fn case(ctx: &mut Ctx, r: &mut Rng, n: usize) {
     if r.below(5) == 0 {
         // value sizes that a few dozen small assets fill
         params.max_value_size = 150 + r.below(900);
+    }
+    let forced = OVERRIDE.with(|o| o.get());
+    if let Some(x) = forced.0 {
+        params.max_tx_size = x;
+    }
+    if let Some(x) = forced.1 {
+        params.max_value_size = x;
     }
     let (cfg, _) = make_config(&params, r);
     let mut s = Scn::new(r, ring, Focus::default());
@@ -254,6 +296,10 @@ fn case(ctx: &mut Ctx, r: &mut Rng, n: usize) {
                 }
                 if let Some(v) = ledger::output_value_item(o) {
                     let vl = (v.end - v.start) as u64;
+                    MEASURED.with(|m| {
+                        let (a, b) = m.get();
+                        m.set((a, b.max(vl)));
+                    });
                     if vl > params.max_value_size {
                         ctx.violation("send-all/output-value-larger-than-max-value-size", det(json!({"tx": ti, "value_size": vl})));
                     }
@@ -312,6 +358,10 @@ fn case(ctx: &mut Ctx, r: &mut Rng, n: usize) {
                     } else if fee as u128 == min {
                         ctx.bucket("tx.fee-exactly-minimum");
                     }
+                    MEASURED.with(|m| {
+                        let (a, b) = m.get();
+                        m.set((a.max(len), b));
+                    });
                     if len > params.max_tx_size {
                         ctx.violation("send-all/witnessed-size-above-max-tx-size", det(json!({"tx": ti, "witnessed_size": len})));
                     }
